@@ -176,6 +176,16 @@ register(
     "DESIGN.md §3 C13",
 )
 
+register(
+    "C18",
+    "bounded-exhaustive enumeration of all base-set assignments to 3 nodes and all per-DOF 6-letter strings, every ordered pair of set expressions, every DOF-request form x strictness, and all small inputs of the locate helpers, against a pure-set model of the USET lattice and the helpers' defining equations",
+    "Every USET table of the bounded space is built with make_uset and every partition vector (base sets, supersets, "
+    "minor-from-major for all ordered pairs incl. unions) and DOF look-up is compared with a set-theoretic model "
+    "(refusal iff the minor set is not contained); the index helpers are checked on all small inputs.",
+    "Trusted: the set hierarchy transcribed from the docstring diagram; 3 nodes (2 grids + 1 scalar point).",
+    "DESIGN.md §3 C18",
+)
+
 
 def build():
     checks = []
